@@ -243,3 +243,22 @@ def k11_file_opener_rewrites(label, actions, pre, problem):
     what = problem.get('what', '')
     writers = [a for a in actions if a[0] in ('set', 'del', 'pop', 'update', 'clear', 'dump', 'setdefault', 'popkeys')]
     return 'after all processes finished the archive holds' in what and len(writers) == 1 and len(actions) >= 2
+
+
+def probe_k12_sql_unpicklable():
+    """K12 (C04): a sqltable_archive (sqlite3 fallback) holds an open connection and cannot be pickled"""
+    import shutil
+    import tempfile
+    import dill
+    import klepto.archives as ar
+    d = tempfile.mkdtemp(prefix='k12probe')
+    try:
+        a = ar.sqltable_archive('sqlite:///%s/x.db?table=t' % d, cached=False)
+        a['k'] = 1
+        try:
+            b = dill.loads(dill.dumps(a))
+            return dict(b.items()) != {'k': 1}
+        except TypeError:
+            return True
+    finally:
+        shutil.rmtree(d, ignore_errors=True)
